@@ -759,3 +759,143 @@ pub fn step(c: &mut Case, kind: &str, kv: &HashMap<String, String>, stats: &mut 
         _ => "bad-op".into(),
     }
 }
+
+// ------------------------------------------------------------------------------------------------
+// The tie of the SQL compiler model (lean/DiscretModel/Model/SqlGen.lean, SqlSem.lean), ops added for C05:
+//   sqlck        -> sql=<SQL text of the root selection, %XX-encoded> par=<bound values, `;`-separated | -> rows=[<canonical rows>]
+//                   | err:<class>     (text: `SingleQuery.sql_query` of PreparedQueries::build; bound values: what
+//                   `SingleQuery::build_query_params` hands to SQLite after `validate_params`; rows: `Query::read`)
+//   sqltbl       -> tbl=<id>:<_entity>:{<short>=<Val>;…}|…   the scalar fields of the `_node` rows of the case, by row number
+use discret::verif_hooks::database::query::{PreparedQueries, Query};
+use discret::verif_hooks::database::query_language::query_parser::QueryParser;
+use rusqlite::types::{ToSqlOutput, Value, ValueRef};
+
+fn bound_text(v: &dyn rusqlite::ToSql) -> String {
+    let show_ref = |r: ValueRef| match r {
+        ValueRef::Null => "N".to_string(),
+        ValueRef::Integer(i) => format!("I{}", i),
+        ValueRef::Real(f) => format!("F{}", f.to_bits()),
+        ValueRef::Text(t) => format!("S{}", enc(&String::from_utf8_lossy(t))),
+        ValueRef::Blob(b) => format!("X{}", b.len()),
+    };
+    match v.to_sql() {
+        Ok(ToSqlOutput::Borrowed(r)) => show_ref(r),
+        Ok(ToSqlOutput::Owned(Value::Null)) => "N".into(),
+        Ok(ToSqlOutput::Owned(Value::Integer(i))) => format!("I{}", i),
+        Ok(ToSqlOutput::Owned(Value::Real(f))) => format!("F{}", f.to_bits()),
+        Ok(ToSqlOutput::Owned(Value::Text(t))) => format!("S{}", enc(&t)),
+        Ok(ToSqlOutput::Owned(Value::Blob(b))) => format!("X{}", b.len()),
+        _ => "?".into(),
+    }
+}
+
+pub fn step_sql(c: &mut Case, kind: &str, _kv: &HashMap<String, String>, stats: &mut Stats) -> String {
+    match kind {
+        "sqlck" => {
+            stats.inc("c05.sqlck");
+            let db = match c.db.as_ref() {
+                Some(d) => d,
+                None => return "err:nodb".into(),
+            };
+            let mut p = Parameters::new();
+            let mut pc = 0;
+            let text = match c.node_text(0, None, &mut p, &mut pc, None) {
+                Some(t) => format!("query {{ {} }}", t),
+                None => return "bad-op".into(),
+            };
+            let qp = match QueryParser::parse(&text, &db.dm) {
+                Ok(q) => q,
+                Err(e) => return format!("err:{}", class_ql(&e)),
+            };
+            let pq = match PreparedQueries::build(&qp) {
+                Ok(q) => q,
+                Err(e) => return format!("err:{}", class_db(&e)),
+            };
+            if pq.sql_queries.len() != 1 {
+                return "err:shape".into();
+            }
+            if let Err(e) = qp.variables.validate_params(&mut p) {
+                return format!("err:{}", class_ql(&e));
+            }
+            let sql = pq.sql_queries[0].sql_query.clone();
+            let par = match pq.sql_queries[0].build_query_params(&p) {
+                Ok(v) => v.iter().map(|b| bound_text(b.as_ref())).collect::<Vec<_>>(),
+                Err(e) => return format!("err:{}", class_db(&e)),
+            };
+            let mut q = Query { parameters: p, parser: std::sync::Arc::new(qp), sql_queries: std::sync::Arc::new(pq) };
+            let res = match q.read(&db.conn) {
+                Ok(r) => r,
+                Err(e) => return format!("err:{}", class_db(&e)),
+            };
+            let j = match JParser::parse(&res) {
+                Ok(j) => j,
+                Err(e) => return format!("err:badjson:{}", e),
+            };
+            let root = match c.nodes.get(&0) {
+                Some(r) => r,
+                None => return "bad-op".into(),
+            };
+            let key = root.alias.clone().unwrap_or_else(|| ent_name(c, root.ent));
+            let items = match j.get(&key) {
+                Some(J::Arr(items)) => items.clone(),
+                _ => return "err:shape".into(),
+            };
+            let rows = c.canon_rows(0, &items);
+            stats.add("c05.sqlck_rows", rows.len() as u64);
+            format!("sql={} par={} rows=[{}]", pct(&sql), if par.is_empty() { "-".to_string() } else { par.join(";") }, rows.join(","))
+        }
+        "sqltbl" => {
+            let db = match c.db.as_ref() {
+                Some(d) => d,
+                None => return "err:nodb".into(),
+            };
+            // short names of the scalar fields, from the real data model
+            let mut shorts: HashMap<String, Vec<String>> = HashMap::new(); // entity short name -> short names of its I/S/B fields
+            for (i, e) in c.ents.iter().enumerate() {
+                let ent = match db.dm.get_entity(&ent_name(c, i)) {
+                    Ok(e) => e,
+                    Err(_) => return "err:model".into(),
+                };
+                let mut v = vec![];
+                for (j, f) in e.iter().enumerate() {
+                    if "ISB".contains(f.ty) {
+                        if let Ok(fd) = ent.get_field(&format!("f{}", j)) {
+                            v.push(fd.short_name.clone());
+                        }
+                    }
+                }
+                shorts.insert(ent.short_name.clone(), v);
+            }
+            let mut st = match db.conn.prepare("SELECT id, _entity, _json FROM _node") {
+                Ok(s) => s,
+                Err(_) => return "err:sql".into(),
+            };
+            let mut out: Vec<(u64, String)> = vec![];
+            let mut rows = st.query([]).unwrap();
+            while let Some(r) = rows.next().unwrap() {
+                let id: Vec<u8> = r.get(0).unwrap();
+                let ent: String = r.get(1).unwrap();
+                let js: Option<String> = r.get(2).unwrap();
+                let uid = discret::verif_hooks::security::base64_encode(&id);
+                let l = match c.logical.get(&uid) {
+                    Some(l) => *l,
+                    None => continue,
+                };
+                let parsed = JParser::parse(js.as_deref().unwrap_or("{}")).unwrap_or(J::Obj(vec![]));
+                let mut items = vec![];
+                if let (J::Obj(fs), Some(sh)) = (&parsed, shorts.get(&ent)) {
+                    for (k, v) in fs {
+                        if sh.contains(k) {
+                            items.push(format!("{}={}", k, c.canon_val(v)));
+                        }
+                    }
+                }
+                items.sort();
+                out.push((l, format!("{}:{}:{{{}}}", l, ent, items.join(";"))));
+            }
+            out.sort();
+            format!("tbl={}", out.into_iter().map(|x| x.1).collect::<Vec<_>>().join("|"))
+        }
+        _ => "bad-op".into(),
+    }
+}
